@@ -19,7 +19,7 @@ def run_one(m, args):
             p = os.path.join(repo, e["file"])
             s = open(p).read()
             cnt = s.count(e["old"])
-            if cnt != e.get("count", 1):
+            if (e.get("count", 1) == -1 and cnt == 0) or (e.get("count", 1) != -1 and cnt != e.get("count", 1)):
                 return (m["id"], "STALE", f"pattern occurs {cnt} times in {e['file']}")
             s = s.replace(e["old"], e["new"])
             open(p, "w").write(s)
